@@ -95,6 +95,22 @@ RC_POST = [
     "forall(c, broker.instances, c in old(broker.instances) or (c in attidx and 0 <= attidx[c] and attidx[c] < len(att) and att[attidx[c]] == c))",
 ]
 
+# dr.run (its own body): the C01 clauses over the attempt log of the evaluation it performs.  `graph` is the dependency graph that is
+# evaluated (the argument, minus what the archive branch prunes); att the components process() was called for, in order
+RUN_POST = [
+    "result == broker",
+    # the graph evaluated is a sub-graph of the one given: pruning only drops entries
+    "forall(x, graph, x in old(components) and graph[x] == old(components)[x])",
+    # at most once
+    "distinct(att)",
+    # never before a declared dependency that takes part: a dependency of an attempted component is never attempted later
+    "forall(a, range(0, len(att)), forall(b, range(0, len(att)), implies(a < b and att[a] in graph, att[b] not in graph[att[a]])))",
+    # only components of the evaluated graph are attempted, and no seed is
+    "forall(j, range(0, len(att)), att[j] in graph and att[j] not in old(broker.instances))",
+    # seeds keep their value
+    "forall(c, old(broker.instances), c in broker.instances and broker.instances[c] == old(broker.instances)[c])",
+]
+
 
 # --- toposort ------------------------------------------------------------------------------------
 TS_INV0 = [
@@ -330,7 +346,28 @@ def declare(reg):
                            ("broker.exec_times[component] = time.time() - start", "assert (%s), 'accounting'" % RC_ACCOUNT, "before")],
                  loops={0: RC_INV, 1: RC_INV_BL, 2: RC_INV_INNER},
                  raises={},
-                 ensures=["result == broker"] + RC_POST)
+                 ensures=["result == broker"] + RC_POST +
+                         # process() is called only for components of the graph handed in that are registered and enabled
+                         ["forall(j, range(0, len(att)), %s)" % RUNNABLE.format(c="att[j]")])
+
+
+    # ------------------------------------------------------------------ dr.run (C01): its own body, from the archive pruning branch to the end
+    RUN_PRUNE = ["forall(x, components, x in old(components) and components[x] == old(components)[x])",
+                 "broker.instances == old(broker.instances)",
+                 "forall(b, Ref_Broker, implies(b != broker, b.instances == old(b.instances)))"]
+    reg.glob(M, SerializedArchiveContext=Comp)
+    reg.contract(M, "run", window="evaluate",
+                 params=collections.OrderedDict(components=Map(Comp, Set(Comp)), broker=Ref("Broker")), returns=Ref("Broker"),
+                 from_stmt="broker = broker or Broker()", from_after=True,
+                 requires=["forall(c, DELEGATES, DELEGATES[c].component == c)"],
+                 modifies=["Broker.instances", "Broker.exceptions", "Broker.tracebacks", "Broker.missing_requirements",
+                           "Broker.exec_times", "BLACKLISTED_SPECS", "Delegate.timeout", "components"],
+                 loops={0: RUN_PRUNE, 1: RUN_PRUNE},
+                 # a cyclic graph is refused by run_order (ValueError); the pruning loop reads components[comp] after an earlier iteration may
+                 # have dropped comp (a seeded component that is itself a dependency of another seeded one): KeyError before anything ran
+                 raises={"ValueError": None, "KeyError": None},
+                 ghost_final=collections.OrderedDict(att=(List(Comp), "run_components_att"), graph=(Map(Comp, Set(Comp)), "components")),
+                 ensures=RUN_POST)
 
     # ------------------------------------------------------------------ toposort (insights/contrib/toposort.py)
     reg.specfun("nodes", dict(g=Map(Comp, Set(Comp))), Set(Comp), "union(keys(g), bigunion(g))")
